@@ -277,3 +277,5 @@ def check(ctx, rep):
     metarules.property_rebuild_forwards(ctx, rep, "C11.SRC")
     metarules.recursion_threads_guard(ctx, rep, "C11.TRANS")
     shared.mutable_defaults(ctx, rep, "C11.STATE")
+    shared.borrow(ctx, rep, "c12", {"C12.T": "C11.SLOT"})       # invalidation deletes the cached value through the descriptor: the delete table must admit it
+    metarules.invalidated_by_source(ctx, rep, "C11.SRC")
